@@ -66,6 +66,42 @@ pub fn together_here(jobs: &[(String, bool)]) -> Vec<Result<String, String>> {
     handles.into_iter().map(|h| h.join().unwrap_or_else(|_| Err("thread-died".into()))).collect()
 }
 
+/// run a child process with a wall-clock limit; Err("child-hang") when it had to be killed
+fn output_within(cmd: &mut std::process::Command, limit_s: f64) -> Result<std::process::Output, String> {
+    use std::io::Read;
+    let mut child = cmd.stdout(std::process::Stdio::piped()).stderr(std::process::Stdio::null()).spawn().map_err(|e| e.to_string())?;
+    let mut out = child.stdout.take().ok_or("no stdout")?;
+    let reader = std::thread::spawn(move || {
+        let mut buf = vec![];
+        let _ = out.read_to_end(&mut buf);
+        buf
+    });
+    let t0 = std::time::Instant::now();
+    loop {
+        match child.try_wait().map_err(|e| e.to_string())? {
+            Some(status) => {
+                let stdout = reader.join().unwrap_or_default();
+                return Ok(std::process::Output { status, stdout, stderr: vec![] });
+            }
+            None => {
+                if t0.elapsed().as_secs_f64() > limit_s {
+                    let _ = child.kill();
+                    let _ = child.wait();
+                    let _ = reader.join();
+                    return Err("child-hang".into());
+                }
+                std::thread::sleep(std::time::Duration::from_millis(5));
+            }
+        }
+    }
+}
+
+/// wall limit for running the jobs together, from the time they took one after the other: a run that
+/// exceeds it is a hang (deadlock, livelock), not slowness
+fn hang_limit(solo_total_s: f64) -> f64 {
+    (40.0 * solo_total_s).max(45.0)
+}
+
 /// run all jobs in THIS process under a harness-owned schedule (`mmv together` with a plan)
 pub fn together_planned_here(jobs: &[(String, bool)], plan: Vec<(u64, u64)>) -> (Vec<Result<String, String>>, crate::runners::coop::Stats) {
     let js: Vec<(String, bool)> = jobs.to_vec();
@@ -78,14 +114,14 @@ pub fn together_planned_here(jobs: &[(String, bool)], plan: Vec<(u64, u64)>) -> 
 
 /// one fresh child process that starts all jobs together (nothing was compiled in it before, so
 /// which thread interns, registers or caches something first is decided by the race alone)
-fn together(jobs: &[(String, bool)], tag: u64) -> Result<Vec<Result<String, String>>, String> {
-    together_with(jobs, None, tag).map(|(r, _)| r)
+fn together(jobs: &[(String, bool)], tag: u64, limit_s: f64) -> Result<Vec<Result<String, String>>, String> {
+    together_with(jobs, None, tag, limit_s).map(|(r, _)| r)
 }
 
 /// schedule statistics of a planned run: (scheduling points, switches, forced turns)
 type SchedStats = (u64, u64, u64);
 
-fn together_with(jobs: &[(String, bool)], plan: Option<&[(u64, u64)]>, tag: u64) -> Result<(Vec<Result<String, String>>, SchedStats), String> {
+fn together_with(jobs: &[(String, bool)], plan: Option<&[(u64, u64)]>, tag: u64, limit_s: f64) -> Result<(Vec<Result<String, String>>, SchedStats), String> {
     let dir = "/verif/target/work/c19";
     let _ = std::fs::create_dir_all(dir);
     let path = format!("{dir}/{}-{tag:016x}.jobs.json", std::process::id());
@@ -96,7 +132,7 @@ fn together_with(jobs: &[(String, bool)], plan: Option<&[(u64, u64)]>, tag: u64)
     };
     std::fs::write(&path, serde_json::to_vec(&payload).unwrap()).map_err(|e| e.to_string())?;
     let exe = std::env::current_exe().map_err(|e| e.to_string())?;
-    let out = std::process::Command::new(exe).args(["together", &path]).output().map_err(|e| e.to_string());
+    let out = output_within(std::process::Command::new(exe).args(["together", &path]), limit_s);
     let _ = std::fs::remove_file(&path);
     let out = out?;
     if !out.status.success() {
@@ -199,13 +235,20 @@ fn finish_with(jobs: &[(String, bool)], plan: Option<Vec<(u64, u64)>>, classes: 
         return r;
     }
     // every job alone, each in its own fresh process
+    let t_solo = std::time::Instant::now();
     let alone: Vec<Result<String, String>> = jobs.iter().enumerate().map(|(i, (s, sc))| solo(s, *sc, hash ^ (i as u64 + 1))).collect();
+    let limit = hang_limit(t_solo.elapsed().as_secs_f64());
     // all jobs together, in fresh processes (a replay tries harder: the race is not ours to steer)
     let attempts = if cx.strict { 24 } else { 2 };
     let mut bad: Option<(usize, String, Result<String, String>)> = None;
     let mut seen = 0u32;
+    let mut hangs = 0u32;
     for a in 0..attempts {
-        match together(jobs, hash ^ (0x100 + a as u64)) {
+        if hangs >= 2 {
+            break;
+        }
+        match together(jobs, hash ^ (0x100 + a as u64), limit) {
+            Err(e) if e == "child-hang" => hangs += 1,
             Err(e) => return CaseResult::discard(format!("child:{e}")),
             Ok(r) => {
                 if let Some(i) = differs(&alone, &r) {
@@ -223,7 +266,18 @@ fn finish_with(jobs: &[(String, bool)], plan: Option<Vec<(u64, u64)>>, classes: 
     }
     let mut r = CaseResult::held(hash);
     let mut flaky = false;
-    if let Some((i, msg, got)) = bad {
+    if hangs == 1 {
+        // one more look: a hang has to be seen twice
+        if matches!(together(jobs, hash ^ 0x1ff, limit), Err(e) if e == "child-hang") {
+            hangs += 1;
+        }
+    }
+    if hangs >= 2 {
+        r = CaseResult::fail(hash, "c19:hang-only-when-concurrent", format!("the jobs finish one after the other (limit derived from that: {limit:.0} s) but running them together did not finish within the limit in {hangs} runs: deadlock or livelock"));
+    } else if hangs == 1 {
+        flaky = true;
+    }
+    if let Some((i, msg, got)) = bad.filter(|_| hangs < 2) {
         // the solo result itself must be stable (otherwise it is C15's subject)
         let alone2: Vec<Result<String, String>> = jobs.iter().enumerate().map(|(k, (s, sc))| solo(s, *sc, hash ^ (k as u64 + 0x1000))).collect();
         if alone2 != alone {
@@ -234,7 +288,7 @@ fn finish_with(jobs: &[(String, bool)], plan: Option<Vec<(u64, u64)>>, classes: 
         // runs of the same jobs; such a sighting is counted, not reported)
         let mut more = 0;
         while seen < 3 && more < 20 {
-            if let Ok(r2) = together(jobs, hash ^ (0x200 + more as u64)) {
+            if let Ok(r2) = together(jobs, hash ^ (0x200 + more as u64), limit) {
                 if differs(&alone, &r2).is_some() {
                     seen += 1;
                 }
@@ -282,7 +336,11 @@ fn finish_planned(jobs: &[(String, bool)], plan: Vec<(u64, u64)>, classes: Vec<S
         r.direct = Some(direct);
         return r;
     }
+    let t_solo = std::time::Instant::now();
     let alone: Vec<Result<String, String>> = jobs.iter().enumerate().map(|(i, (s, sc))| solo(s, *sc, hash ^ (i as u64 + 1))).collect();
+    // (a planned run pays about 30 microseconds per turn switch on top: at most a few seconds)
+    let limit = hang_limit(t_solo.elapsed().as_secs_f64()) + 15.0;
+    let mut hangs = 0u32;
     let mut seen = 0u32;
     let mut runs = 0u32;
     let mut bad: Option<(usize, String, Result<String, String>)> = None;
@@ -290,7 +348,18 @@ fn finish_planned(jobs: &[(String, bool)], plan: Vec<(u64, u64)>, classes: Vec<S
     let first = if cx.strict { 3 } else { 1 };
     let mut a = 0u64;
     while runs < first || (seen > 0 && seen < 2 && runs < first + 4) {
-        match together_with(jobs, Some(&plan), hash ^ (0x300 + a)) {
+        match together_with(jobs, Some(&plan), hash ^ (0x300 + a), limit) {
+            Err(e) if e == "child-hang" => {
+                hangs += 1;
+                seen += 1;
+                if hangs >= 2 {
+                    let mut r = CaseResult::fail(hash, "c19:hang-only-when-concurrent", format!("the jobs finish one after the other but did not finish within {limit:.0} s under the planned interleaving, twice: deadlock or livelock"));
+                    r.classes = classes;
+                    r.render = Some(json!({"jobs": jobs.iter().map(|(s, _)| s.chars().take(300).collect::<String>()).collect::<Vec<_>>(), "plan": format!("{:?}", &plan[..plan.len().min(12)])}));
+                    r.direct = Some(direct);
+                    return r;
+                }
+            }
             Err(e) => return CaseResult::discard(format!("child:{e}")),
             Ok((r, st)) => {
                 if runs == 0 {
@@ -376,12 +445,12 @@ impl Prop for C19 {
     fn spaces(&self, tier: Tier) -> Vec<Space> {
         match tier {
             Tier::Quick => vec![
-                Space { name: "sched", size: 1200, exhaustive: false, chunk: 25, case_timeout_s: 300.0, what: "K=2..4 compile+run jobs under a harness-owned interleaving: one thread runs at a time, switching at session-globals accesses where the case's plan says (fine alternation, log-uniform, coarse, burst and mixed plans)" },
-                Space { name: "stress", size: 640, exhaustive: false, chunk: 20, case_timeout_s: 300.0, what: "K=2..6 compile+run jobs (generated, shipped incl. macro/module programs, identical and near-identical sources, failing programs) started together on K threads, 2 rounds each" },
+                Space { name: "sched", size: 1200, exhaustive: false, chunk: 4, case_timeout_s: 300.0, what: "K=2..4 compile+run jobs under a harness-owned interleaving: one thread runs at a time, switching at session-globals accesses where the case's plan says (fine alternation, log-uniform, coarse, burst and mixed plans)" },
+                Space { name: "stress", size: 640, exhaustive: false, chunk: 2, case_timeout_s: 300.0, what: "K=2..6 compile+run jobs (generated, shipped incl. macro/module programs, identical and near-identical sources, failing programs) started together on K threads, 2 rounds each" },
             ],
             Tier::Thorough => vec![
-                Space { name: "sched", size: 20000, exhaustive: false, chunk: 40, case_timeout_s: 300.0, what: "K=2..4 jobs under a harness-owned interleaving" },
-                Space { name: "stress", size: 6000, exhaustive: false, chunk: 40, case_timeout_s: 300.0, what: "K=2..6 concurrent compile+run jobs, 2 rounds each" },
+                Space { name: "sched", size: 20000, exhaustive: false, chunk: 10, case_timeout_s: 300.0, what: "K=2..4 jobs under a harness-owned interleaving" },
+                Space { name: "stress", size: 6000, exhaustive: false, chunk: 10, case_timeout_s: 300.0, what: "K=2..6 concurrent compile+run jobs, 2 rounds each" },
             ],
         }
     }
@@ -499,8 +568,11 @@ impl Prop for C19 {
         vec![
             "space `stress`: interleavings are whatever the OS scheduler produces on this machine, so a rare interleaving can be missed and a difference seen fewer than three times in 22 concurrent runs is not reported".into(),
             "space `sched`: the harness owns the interleaving only at the granularity of session-globals accesses (hook H3); code between two such accesses runs atomically, so races on other shared state are exercised only insofar as a session-globals access lies inside their window; a job thread's own behaviour is not perfectly deterministic (the number of scheduling points of one job varies by a fraction of a percent between processes), so a plan fixes the interleaving approximately".into(),
-            "deadlocks would show as a case hitting the 300 s limit, which this property treats as inconclusive".into(),
+            "a deadlock or livelock is recognised by a wall-clock limit derived from the jobs' own solo run time (40x, at least 45 s) and has to be seen twice; a machine so overloaded that a healthy run exceeds that limit twice would be misread".into(),
         ]
+    }
+    fn fail_budget(&self) -> u64 {
+        8
     }
     fn required_classes(&self, _tier: Tier) -> Vec<&'static str> {
         vec!["job:generated", "job:shipped", "job:macro", "job:duplicate", "job:broken", "job:ident-shuffle", "some-job-compiles", "identical-sources", "plan:fine", "plan:log", "plan:coarse", "plan:burst", "plan:mixed", "switches:>=1000"]
